@@ -9,6 +9,7 @@ import Driver.OpsSym
 import Driver.OpsBot
 import Driver.OpsText
 import Driver.OpsTEI
+import Driver.OpsTEIClient
 import Driver.OpsFPA
 import Driver.OpsMCTS
 import Driver.OpsPTN
@@ -27,6 +28,7 @@ def handlers : List Handler := [
   handleBot,
   handleText,
   handleTEI,
+  handleTEIClient,
   handleFPA,
   handleMCTS,
   handlePTN,
